@@ -5,7 +5,7 @@ import os
 from vf import core, gobuild, pipeline, tlc
 from . import remoteclient as rc
 
-FORMULAS = {'Correlated', 'RespondIsolated', 'Answered', 'RejectSurfaces', 'TimeoutIsolated', 'OutputsExact', 'NoPanic'}
+FORMULAS = {'Correlated', 'RespondIsolated', 'Answered', 'RejectSurfaces', 'TimeoutIsolated', 'TimeoutOnTime', 'OutputsExact', 'NoPanic'}
 
 
 def outputs(chk, thorough):
